@@ -11,6 +11,7 @@ import (
 	"reflect"
 	"strconv"
 	"strings"
+	"unsafe"
 
 	"golang.org/x/tools/go/ssa"
 )
@@ -57,6 +58,10 @@ func init() {
 		"(reflect.Value).Float":                 extReflectFloat,
 		"(reflect.Value).String":                extReflectString,
 		"(reflect.Value).Bool":                  extReflectBool,
+		"(reflect.Value).Pointer":               extReflectPointer,
+		"(reflect.Value).Len":                   extReflectLen,
+		"(reflect.Value).Cap":                   extReflectCap,
+		"(reflect.Value).IsNil":                 extReflectIsNil,
 		"github.com/google/go-cmp/cmp.Equal":    extCmpEqual,
 		"github.com/google/go-cmp/cmp.Exporter": extCmpExporter,
 		"github.com/google/go-cmp/cmp/cmpopts.EquateEmpty": func(fr *frame, args []value) value {
@@ -854,6 +859,76 @@ func extReflectFloat(fr *frame, args []value) value {
 	default:
 		panic(targetPanic{iface{fr.i.runtimeErrorString, reflectPanic("Float", k)}})
 	}
+}
+
+// Pointer of a slice: the address of element 0 of the backing array the
+// engine really allocated, so two windows alias exactly when they do in Go.
+var zeroBase [1]value
+
+func extReflectPointer(fr *frame, args []value) value {
+	t, v := rvParts(args[0])
+	if t == nil {
+		panic(targetPanic{iface{fr.i.runtimeErrorString, "reflect: call of reflect.Value.Pointer on zero Value"}})
+	}
+	switch k := reflectKind(t); k {
+	case reflect.Slice:
+		sl, ok := v.([]value)
+		if !ok {
+			panic(pathAbort{"unsupported", "reflect.Value.Pointer on this slice representation"})
+		}
+		if sl == nil {
+			return uintptr(0)
+		}
+		if cap(sl) == 0 {
+			return uintptr(unsafe.Pointer(&zeroBase[0]))
+		}
+		return uintptr(unsafe.Pointer(&sl[:1][0]))
+	case reflect.Ptr:
+		if p, ok := v.(*value); ok {
+			return uintptr(unsafe.Pointer(p))
+		}
+	}
+	panic(pathAbort{"unsupported", "reflect.Value.Pointer on " + reflectKind(t).String()})
+}
+
+func extReflectLen(fr *frame, args []value) value {
+	t, v := rvParts(args[0])
+	if t != nil {
+		switch x := v.(type) {
+		case []value:
+			return len(x)
+		case string:
+			return len(x)
+		case array:
+			return len(x)
+		}
+	}
+	panic(pathAbort{"unsupported", "reflect.Value.Len on this value"})
+}
+
+func extReflectCap(fr *frame, args []value) value {
+	t, v := rvParts(args[0])
+	if t != nil {
+		if x, ok := v.([]value); ok {
+			return cap(x)
+		}
+	}
+	panic(pathAbort{"unsupported", "reflect.Value.Cap on this value"})
+}
+
+func extReflectIsNil(fr *frame, args []value) value {
+	t, v := rvParts(args[0])
+	if t != nil {
+		switch x := v.(type) {
+		case []value:
+			return x == nil
+		case *value:
+			return x == nil
+		case iface:
+			return x.t == nil
+		}
+	}
+	panic(pathAbort{"unsupported", "reflect.Value.IsNil on this value"})
 }
 
 func extReflectBool(fr *frame, args []value) value {
